@@ -375,7 +375,7 @@ GRIisspecial_type(int32 file_id, uint16 tag, uint16 ref)
     aid = Hstartread(file_id, tag, ref);
 
     /* get the access_rec pointer */
-    access_rec = HAatom_object(aid);
+    access_rec = HAaccess_object(aid);
     if (access_rec == NULL)
         HGOTO_ERROR(DFE_ARGS, FAIL);
 
@@ -1965,7 +1965,7 @@ GRend(int32 grid)
         HGOTO_DONE(SUCCEED);
 
     hdf_file_id = gr_ptr->hdf_file_id;
-    file_rec    = HAatom_object(hdf_file_id);
+    file_rec    = HAfile_object(hdf_file_id);
 
     if (((file_rec->access) & DFACC_WRITE) != 0) {
         /* Check if the GR group exists, and create it if not */
@@ -4387,7 +4387,7 @@ GRsetattr(int32 id, const char *name, int32 attr_nt, int32 count, const void *da
         HGOTO_ERROR(DFE_ARGS, FAIL);
 
     /* attributes are stored by GRend(), which only writes to a file opened for writing */
-    file_rec = HAatom_object(hdf_file_id);
+    file_rec = HAfile_object(hdf_file_id);
     if (BADFREC(file_rec))
         HGOTO_ERROR(DFE_ARGS, FAIL);
     if (!(file_rec->access & DFACC_WRITE))
